@@ -38,7 +38,8 @@ QUANTIFIED = 'all nodes x_v, x0, and all old weights W[v,k] of the invariant: un
 
 def grid(tier):
     if tier == 'quick':
-        return [(m, n) for m in (2, 3, 5, 8) for n in sorted({1, 2, min(4, m - 1), m - 1}) if n < m]
+        # every node count up to 9 with every order (each group < 10 s); 10..14 nodes stay in the thorough tier
+        return [(m, n) for m in range(2, 10) for n in range(1, m)] + [(2, 0), (5, 0)]
     return [(m, n) for m in range(2, 15) for n in range(1, m)] + [(m, 0) for m in (2, 5, 14)]
 
 
